@@ -37,7 +37,7 @@ def is_raw_store_target(t):
 
 
 def check(P, R):
-    R.rule('C14.a', 'raw header store has few writers', floor=4)
+    R.rule('C14.a', 'raw header store has few writers', floor=3)
     R.rule('C14.b', 'single-value setters store only the guard\'s result', floor=6)
     R.rule('C14.c', 'guard rejects CR, LF, NUL and non-scalars', floor=5)
     R.rule('C14.d', 'emission: per value, transcoded, blacklist, same list to start_response', floor=7)
@@ -71,7 +71,7 @@ def check(P, R):
                     nw += 1
                     ok = f.owner_cls is hd or f.fq in allowed_writer_funcs
                     R.ob('C14.a', f, st, ok, detail='' if ok else 'a raw header dictionary is updated outside HeaderDict / apply')
-    R.require(nw >= 4, f'only {nw} raw-store writers recognised (pinned tree: 6)')
+    R.require(nw >= 3, f'only {nw} raw-store writers recognised (pinned tree: 4)')
 
     # ---- b: setters
     for name in ('__setitem__', 'append', 'setdefault'):
